@@ -508,6 +508,50 @@ def env_inventory(repo=None):
     return names
 
 
+_OPTION_CACHE = {}
+
+
+def unknown_options(exe, sub):
+    """Options of `imdl <sub...>` that are not in tools/known_options.json (the options of the last validated tree; rewritten
+    only deliberately), read from the binary's own --help: [(flag, value or None)] with a plausible value made from the
+    placeholder. A new option is a new input of the command: the checks give it in part of their runs of that command, so that
+    what it does is seen by their ordinary oracles. (Seeded changes C04-15 `create --info-entry`, C11-16 `from-link --show`.)"""
+    key = (exe, tuple(sub))
+    if key in _OPTION_CACHE:
+        return _OPTION_CACHE[key]
+    try:
+        known = set(json.load(open(os.path.join(VERIF, "tools", "known_options.json"))).get(" ".join(sub), []))
+    except Exception:
+        known = None
+    found = []
+    if known is not None:
+        try:
+            p = subprocess.run([exe, "--unstable"] + list(sub) + ["--help"], stdout=subprocess.PIPE, stderr=subprocess.PIPE, timeout=30,
+                               env={"NO_COLOR": "1", "TERM": "dumb", "IMDL_TERM_WIDTH": "400", "PATH": os.environ.get("PATH", "")})
+            out = p.stdout
+        except Exception:
+            out = b""
+        for m in re.finditer(rb"^\s+(?:-\w, )?--([a-z][a-z0-9-]*)(?:\s+<([^>\n]+)>)?", out, re.M):
+            name, ph = m.group(1).decode(), (m.group(2) or b"").decode()
+            if name in known or any(name == f[0][2:] for f in found):
+                continue
+            if not ph:
+                val = None
+            elif "=" in ph:
+                val = "x_custom=value"
+            elif "URL" in ph.upper():
+                val = "http://new.example/x"
+            elif "DIR" in ph.upper() or "PATH" in ph.upper() or "FILE" in ph.upper():
+                val = os.path.join(CACHE, "envdir")
+            elif ph.upper() in ("N", "NUM", "NUMBER", "COUNT", "BYTES", "SIZE", "LIMIT", "SECONDS"):
+                val = "1"
+            else:
+                val = "x-value"
+            found.append(("--" + name, val))
+    _OPTION_CACHE[key] = found
+    return found
+
+
 def unknown_env():
     """variables of env_inventory() the checks do not know, with the value every run sets them to"""
     extra = sorted(env_inventory() - KNOWN_ENV)
